@@ -406,7 +406,38 @@ func genTwoRunReset(seed int64, n int, tier string) []Script {
 				reset = map[string]any{"op": "reset"}
 				tags = append(tags, "stale-long-gram")
 			}
-			if staleLong {
+			staleGram := (kind == "HP" || kind == "BHP") && !margin && r.Intn(2) == 0
+			if staleGram {
+				// A gram entry that survives Reset(data): the history has the
+				// 4-byte gram L at position q; the new data has its first three
+				// bytes with another fourth byte at q and L itself later. A
+				// surviving entry sends the lookup of L to q and yields a
+				// 3-byte match a new parser cannot find.
+				B = pickInt(r, 100, 150, 200)
+				cfg["BufferSize"], cfg["ShrinkSize"], cfg["WindowSize"], cfg["BlockSize"] = B, B/2, 2*B, pickInt(r, 32, 64, B)
+				cfg["InputLen"], cfg["HashBits"] = 4, pickInt(r, 10, 12, 16)
+				L := []byte{'A', 'B', 'C', 'D'}
+				q := 15 + r.Intn(20)
+				fill := func(n int) []byte {
+					out := make([]byte, n)
+					for j := range out {
+						out[j] = byte('a' + r.Intn(20))
+					}
+					return out
+				}
+				pre = append(append(fill(q), L...), fill(10+r.Intn(20))...)
+				nd := append(fill(q), 'A', 'B', 'C', 'x')
+				nd = append(nd, fill(6+r.Intn(10))...)
+				nd = append(nd, L...)
+				nd = append(nd, fill(8)...)
+				k := q + 4 + r.Intn(4)
+				reset = map[string]any{"op": "reset", "data": B2(nd[:k]), "cap": pickInt(r, 0, 0, 3)}
+				op := pumpOp(r, nd[k:], B, "mixed")
+				op["chunk"], op["mode"], op["pearly"], op["pprobe"], op["pnil"], op["pntl"], op["pstop"] = len(nd)+1, "write", 0, 0, 0, 0, 0
+				suf = []map[string]any{op}
+				tags = append(tags, "stale-gram")
+			}
+			if staleLong || staleGram {
 			} else if (kind == "DHP" || kind == "BDHP") && margin && r.Intn(2) == 0 {
 				// The last hashed position of a segment: its stored value may
 				// include bytes behind the data. Part A ends with a gram G and
@@ -452,8 +483,8 @@ func genTwoRunReset(seed int64, n int, tier string) []Script {
 			// X1: parser with a history (fills, shrinks), Reset, same calls
 			ops = append(ops, map[string]any{"op": "run", "run": "X1"})
 			hist := pumpOp(r, pre, B, "mixed")
-			if staleLong {
-				hist["chunk"], hist["mode"], hist["pearly"], hist["pnil"], hist["pprobe"] = len(pre)+1, "write", 0, 0, 0
+			if staleLong || staleGram {
+				hist["chunk"], hist["mode"], hist["pearly"], hist["pnil"], hist["pprobe"], hist["pstop"] = len(pre)+1, "write", 0, 0, 0, 0
 			}
 			ops = append(ops, hist)
 			if r.Intn(3) == 0 {
